@@ -23,19 +23,24 @@ Proof. vm_compute. reflexivity. Qed.
 Lemma parent_side_ok : parent_ok HS = true.
 Proof. vm_compute. reflexivity. Qed.
 
-(** From EVERY state of the process tree (the first process and, recursively, every child), whatever the other threads
-    are doing inside the library at the instant of the fork, a thread that forks outside the library gets a child whose next
-    wrapped call runs to the real exec in [6 + body_steps ops] steps of its own, never blocked, leaving nothing behind.
-    [F2 true]: the fork found the handlers registered, i.e. it began after snoopy_tsrm_init had run (see C10_registered). *)
-Theorem C10_child_completes : forall progs s t ops rest, treachable HS progs s -> pcs s t = F2 true -> todo s t = Call ops :: rest ->
-  exists c', run_alone HS (6 + body_steps ops) t (child_of HS s t true) = Some c' /\ pcs c' t = Out /\ todo c' t = rest
-             /\ repo c' = [] /\ cnt c' = 0 /\ mtx c' = None.
-Proof. exact (child_completes_tree HS parent_side_ok handlers_are_repaired). Qed.
+(** the one-time initialisation (mutex, registration of the fork handlers) runs when the library is loaded, from a
+    function carrying __attribute__((constructor)) whose whole body is the constructor's pthread_once call: the handlers
+    are registered before any thread of the process can call fork() *)
+Lemma load_time_init : h_preinit HS = true.
+Proof. vm_compute. reflexivity. Qed.
 
-(** when the one-time initialisation runs at load time every fork finds the handlers registered *)
-Theorem C10_registered : h_preinit HS = true -> forall progs s, reachable HS progs s ->
-  inited s = true /\ forall t reg, pcs s t = F2 reg -> reg = true.
-Proof. intros Hpre progs s. exact (preinit_always_registered HS progs s parent_side_ok Hpre). Qed.
+(** From EVERY state of the process tree (the first process and, recursively, every child of every fork), whatever the other
+    threads are doing inside the library at the instant of the fork, a thread that forks outside the library gets a child whose
+    next wrapped call runs to the real exec in [6 + body_steps ops] steps of its own, never blocked, leaving nothing behind. *)
+Theorem C10_child_completes : forall progs s t reg ops rest, preachable HS progs s -> pcs s t = F2 reg -> todo s t = Call ops :: rest ->
+  exists c', run_alone HS (6 + body_steps ops) t (child_of HS s t reg) = Some c' /\ pcs c' t = Out /\ todo c' t = rest
+             /\ repo c' = [] /\ cnt c' = 0 /\ mtx c' = None.
+Proof. intros progs s t reg ops rest. exact (child_completes_always HS parent_side_ok handlers_are_repaired progs s t reg ops rest load_time_init). Qed.
+
+(** every fork finds the handlers registered *)
+Theorem C10_registered : forall progs s, preachable HS progs s ->
+  Inv HS s /\ inited s = true /\ forall t reg, pcs s t = F2 reg -> reg = true.
+Proof. intros progs. exact (preachable_good HS parent_side_ok handlers_are_repaired progs load_time_init). Qed.
 
 (** the parent: the steps of a fork change nothing but the forking thread's program counter and the mutex, which the forking
     thread has given back when fork() returns; the other threads keep making progress (C09_progress covers forks) *)
@@ -55,8 +60,8 @@ Theorem C10_parent_progress : forall progs s, reachable HS progs s -> (exists t,
 Proof. exact (progress HS parent_side_ok). Qed.
 
 (** what the search looks for: without handlers there is a reachable parent state whose child blocks for ever; a child
-    handler that unlocks instead of re-initialising blocks every child; and with the repaired handlers, a fork that began
-    before the one-time initialisation ran still yields a blocked child *)
+    handler that unlocks instead of re-initialising blocks every child; and with the handlers registered only on the first
+    wrapped call (no load-time initialisation), a fork that began before that call still yields a blocked child *)
 Lemma C10_without_handlers_refuted :
   exists s reg, reachable no_handlers progs_fork s /\ pcs s 0 = F2 reg /\ todo s 0 = [Call []] /\
                 forall n, 3 <= n -> run_alone no_handlers n 0 (child_of no_handlers s 0 reg) = None.
@@ -74,14 +79,14 @@ Proof. exact first_call_race. Qed.
 Definition sched_nv : list tid := [1; 1; 1; 1; 1; 1; 0; 0].
 Example C10_nonvacuous :
   let s := fst (run_sched HS sched_nv (init HS progs_fork)) in
-  treachable HS progs_fork s /\ pcs s 0 = F2 true /\ todo s 0 = [Call []] /\ registered (pcs s 1) = true.
+  preachable HS progs_fork s /\ pcs s 0 = F2 true /\ todo s 0 = [Call []] /\ registered (pcs s 1) = true.
 Proof.
   split.
-  - assert (G : forall sch s0, treachable HS progs_fork s0 -> treachable HS progs_fork (fst (run_sched HS sch s0))).
+  - assert (G : forall sch s0, preachable HS progs_fork s0 -> preachable HS progs_fork (fst (run_sched HS sch s0))).
     { induction sch as [|t sch IH]; intros s0 R; simpl; [assumption|].
       destruct (step HS t s0) as [| |l s1] eqn:E; simpl; try assumption.
-      specialize (IH s1 (T_step HS progs_fork s0 t l s1 R E)). destruct (run_sched HS sch s1). exact IH. }
-    apply G, T_init.
+      specialize (IH s1 (P_step HS progs_fork s0 t l s1 R E)). destruct (run_sched HS sch s1). exact IH. }
+    apply G, P_init.
   - vm_compute. repeat split.
 Qed.
 
